@@ -79,6 +79,14 @@ def phases(qpt, svecs):
 
 
 def request_ddmall(spec, ph, ddm, fc, qpt, nac):
+    """None when the private index tables of the object are not accessible (reported as 'model inputs unavailable')."""
+    try:
+        return _request_ddmall(spec, ph, ddm, fc, qpt, nac)
+    except AttributeError:
+        return None
+
+
+def _request_ddmall(spec, ph, ddm, fc, qpt, nac):
     p2s, s2p, multi, svecs = tables(ddm)
     npa, ns, nv = len(p2s), len(s2p), len(svecs)
     m = ph.primitive.masses
@@ -132,17 +140,21 @@ def numeric_dD(dm, qpt, lat, h=4e-4):
 
 
 
-def indep_gruneisen(phs, vols, qpt):
-    """-(V/2 lambda) eig(<e| (D+ - D-)/(V+ - V-) |e>) on every (numerically) degenerate subspace of D0(q); None if a gap is ambiguous."""
+def indep_gruneisen(phs, vols, qpt, q_direction=None):
+    """-(V/2 lambda) eig(<e| (D+ - D-)/(V+ - V-) |e>) on every (numerically) degenerate subspace of D0(q); None if a gap is ambiguous.
+    Built from DynamicalMatrix.run per q only (no GruneisenBase.set_qpoints); `q_direction` is the q->0 direction used at Gamma with NAC."""
     mats = []
     for p in phs:
         dm = p.dynamical_matrix
-        dm.run(qpt)
+        if q_direction is not None:
+            dm.run(qpt, q_direction=q_direction)
+        else:
+            dm.run(qpt)
         mats.append(dm.dynamical_matrix.copy())
     lam, E = np.linalg.eigh(mats[0])
     dD = mats[1] - mats[2]
     gaps = np.diff(lam)
-    if ((gaps > 2e-5) & (gaps < 5e-4)).any():
+    if ((gaps > 0.9e-4) & (gaps < 1.1e-4)).any():  # grouping tolerance of rotate_eigenvectors is 1e-4 on the eigenvalues
         return None, lam
     sets, cur = [], [0]
     for i in range(1, len(lam)):
@@ -176,6 +188,15 @@ def gv_pipeline_requests(ph, qpt, with_symmetry):
     gvo = GroupVelocity(ph.dynamical_matrix, symmetry=sym, frequency_factor_to_THz=ph.unit_conversion_factor)
     gvo.run([qpt])
     gv_impl = gvo.group_velocities[0].copy()
+    try:
+        return _gv_pipeline_model_inputs(ph, qpt, sym, gvo, gv_impl, with_symmetry)
+    except AttributeError:
+        return None, gv_impl, None, 0, 0.0, []
+
+
+def _gv_pipeline_model_inputs(ph, qpt, sym, gvo, gv_impl, with_symmetry):
+    from phonopy.phonon.degeneracy import degenerate_sets
+
     dm = ph.dynamical_matrix
     dm.run(qpt)
     eigvals, eigvecs = np.linalg.eigh(dm.dynamical_matrix)
@@ -462,18 +483,22 @@ def main(run):
         run.count("oracle-gv-fd-option", section="oracle")
         # the finite-difference arrays themselves against the model of _get_dD_FD
         from phonopy.phonon.group_velocity import GroupVelocity as _GV
-        gfd = _GV(ph2.dynamical_matrix, q_length=1e-5, frequency_factor_to_THz=ph2.unit_conversion_factor)
-        dfd = gfd._get_dD_FD(np.array(qpt))
         kdir = rng.randrange(4)
-        dqc = gfd._directions[kdir] * gfd._q_length
-        dq_ = np.dot(gfd._reciprocal_lattice_inv, dqc)
-        dmx = ph2.dynamical_matrix
-        dmx.run(qpt + dq_)
-        Dp_ = dmx.dynamical_matrix.copy()
-        dmx.run(qpt - dq_)
-        Dm_ = dmx.dynamical_matrix.copy()
-        gv_lines.append("fdd %d %s %s %s" % (len(f0), Q(gfd._q_length), _cflat(Dp_), _cflat(Dm_)))
-        gv_meta.append(("fdd", dict(info, direction=int(kdir)), dfd[kdir]))
+        try:
+            gfd = _GV(ph2.dynamical_matrix, q_length=1e-5, frequency_factor_to_THz=ph2.unit_conversion_factor)
+            dfd = gfd._get_dD_FD(np.array(qpt))
+            dqc = gfd._directions[kdir] * gfd._q_length
+            dq_ = np.dot(gfd._reciprocal_lattice_inv, dqc)
+            dmx = ph2.dynamical_matrix
+            dmx.run(qpt + dq_)
+            Dp_ = dmx.dynamical_matrix.copy()
+            dmx.run(qpt - dq_)
+            Dm_ = dmx.dynamical_matrix.copy()
+            gv_lines.append("fdd %d %s %s %s" % (len(f0), Q(gfd._q_length), _cflat(Dp_), _cflat(Dm_)))
+            gv_meta.append(("fdd", dict(info, direction=int(kdir)), dfd[kdir]))
+        except AttributeError:
+            gv_lines.append(None)
+            gv_meta.append(("fdd", dict(info, direction=int(kdir)), None))
         # correspondence of the gv formula: feed eigh + C derivative to the model
         dm = ph.dynamical_matrix
         ddm = DerivativeOfDynamicalMatrix(dm)
@@ -588,7 +613,8 @@ def main(run):
         grb = PhonopyGruneisen(phs[0], phs[1], phs[2])
         grb.set_band_structure([path])
         bq, _, bf, bev, bg = grb.get_band_structure()
-        blam = grb._band_structure._paths[0][3]
+        fac_ = phs[0].unit_conversion_factor
+        blam = [np.sign(x) * (x / fac_) ** 2 for x in bf[0]]  # eigenvalues from the reported frequencies (public)
         # band-structure path into the correspondence: the formula on the (band-connected) eigenvectors it reports
         for iq in rng.sample(range(len(path)), 2):
             lam_q = blam[iq]
@@ -644,6 +670,81 @@ def main(run):
                 break
             if sent >= 2:
                 break
+
+    # ---------------- Grueneisen band structures with several segments on polar crystals (Wang NAC): at exact Gamma every
+    # segment has its own q -> 0 direction (its start minus its end); reference = per-q DynamicalMatrix.run, no set_qpoints
+    from phonopy.structure.atoms import PhonopyAtoms as _PA
+
+    def _line(a_, b_, n_=5):
+        a_, b_ = np.array(a_, dtype=float), np.array(b_, dtype=float)
+        return np.array([a_ + (b_ - a_) * t_ for t_ in np.linspace(0, 1, n_)])
+
+    tet = _PA(cell=np.diag([3.0, 3.0, 4.2]), symbols=["Cs", "Cl"], scaled_positions=[[0, 0, 0], [0.5, 0.5, 0.5]])
+    nacbs_cases = [
+        ("tetragonal-CsCl", tet, np.diag([2, 2, 2]), "two segments meeting at Gamma (X-G, G-Z)",
+         [_line([0.5, 0, 0], [0, 0, 0]), _line([0, 0, 0], [0, 0, 0.5])],
+         {"born": np.array([np.diag([1.3, 1.3, 0.7]), -np.diag([1.3, 1.3, 0.7])]), "dielectric": np.diag([2.4, 2.4, 3.6]), "factor": 14.399652, "method": "wang"}),
+        ("tetragonal-CsCl", tet, np.diag([2, 2, 2]), "closed tour G-X, X-M, M-G",
+         [_line([0, 0, 0], [0.5, 0, 0]), _line([0.5, 0, 0], [0.5, 0.5, 0]), _line([0.5, 0.5, 0], [0, 0, 0])],
+         {"born": np.array([np.diag([1.3, 1.3, 0.7]), -np.diag([1.3, 1.3, 0.7])]), "dielectric": np.diag([2.4, 2.4, 3.6]), "factor": 14.399652, "method": "wang"}),
+        ("nacl_prim", make_cell("nacl_prim"), np.diag([2, 2, 2]), "closed tour G-X, X-W, W-G",
+         [_line([0, 0, 0], [0.5, 0, 0.5]), _line([0.5, 0, 0.5], [0.5, 0.25, 0.75]), _line([0.5, 0.25, 0.75], [0, 0, 0])],
+         {"born": np.array([np.eye(3) * 1.1, -np.eye(3) * 1.1]), "dielectric": np.eye(3) * 2.6, "factor": 14.399652, "method": "wang"}),
+    ]
+    for (name, cell, smat, plabel, segs, nacp) in nacbs_cases:
+        phs, vols = [], []
+        for sc_ in (1.0, 1.012, 0.991):
+            c2 = cell.copy()
+            c2.cell = cell.cell * sc_ ** (1.0 / 3)
+            p_ = Phonopy(c2, supercell_matrix=smat, primitive_matrix="P", log_level=0)
+            p_.nac_params = nacp
+            phs.append(p_)
+            vols.append(p_.primitive.volume)
+        fc0 = gen.pair_fc(phs[0].supercell, 4.5)
+        for p_, v_ in zip(phs, vols):
+            p_.force_constants = fc0 * (v_ / vols[0]) ** (-2 * 1.3)
+        grn = PhonopyGruneisen(phs[0], phs[1], phs[2])
+        grn.set_band_structure(segs)
+        bq, _, bf, _, bg = grn.get_band_structure()
+        fac_ = phs[0].unit_conversion_factor
+        info = dict(crystal=name, smat=smat.tolist(), path=plabel, segments=[[sg[0].tolist(), sg[-1].tolist()] for sg in segs], nac="wang")
+        nq_ok = 0
+        for isg, sg in enumerate(segs):
+            qdir = sg[0] - sg[-1]
+            for iq in range(len(sg)):
+                ref, lam_i = indep_gruneisen(phs, vols, sg[iq], q_direction=qdir)
+                fref = np.sqrt(np.abs(lam_i)) * np.sign(lam_i) * fac_
+                run.count("oracle-gruneisen-nac-band-structure-q", section="oracle")
+                at_gamma = bool(np.abs(sg[iq]).max() < 1e-12)
+                if np.abs(np.sort(bf[isg][iq]) - np.sort(fref)).max() > 1e-7 * max(1.0, np.abs(fref).max()):
+                    run.violation("PhonopyGruneisen.get_band_structure", "nac-multi-segment" + ("-gamma" if at_gamma else ""),
+                                  "frequencies %s of segment %d at q=%s differ from those of the Wang dynamical matrix evaluated at that q "
+                                  "(q -> 0 direction of the segment) %s" % (np.sort(bf[isg][iq]).tolist(), isg, sg[iq].tolist(), np.sort(fref).tolist()), info)
+                    continue
+                if ref is None:
+                    run.count("oracle-gruneisen-skipped-q(ambiguous gap)", section="oracle")
+                    continue
+                okm = np.abs(lam_i) > 1e-6
+                lam_b = np.sign(bf[isg][iq]) * (bf[isg][iq] / fac_) ** 2
+                a_, b_ = np.sort(bg[isg][iq][np.abs(lam_b) > 1e-6]), np.sort(ref[okm])
+                nq_ok += 1
+                if len(a_) != len(b_) or (len(a_) and np.abs(a_ - b_).max() > 1e-6 * max(1.0, np.abs(b_).max())):
+                    run.violation("PhonopyGruneisen.get_band_structure", "nac-multi-segment" + ("-gamma" if at_gamma else ""),
+                                  "mode Grueneisen parameters %s of segment %d at q=%s differ from -(V/2 lambda)<e|dD/dV|e> = %s built per q from "
+                                  "DynamicalMatrix.run" % (a_.tolist(), isg, sg[iq].tolist(), b_.tolist()), info)
+        run.case(("grun-nac-bs", name, smat.tolist(), plabel), nontrivial=nq_ok > 0)
+        run.count("gruneisen NAC band structure: %s" % plabel)
+        # group velocities along the same multi-segment path: every q-point as from a single-q calculation
+        phs[0].run_band_structure(segs, with_group_velocities=True)
+        bgv = phs[0].get_band_structure_dict()["group_velocities"]
+        for isg, sg in enumerate(segs):
+            for iq in (0, len(sg) // 2, len(sg) - 1):
+                phs[0].run_qpoints([sg[iq]], with_group_velocities=True)
+                g1 = phs[0].get_qpoints_dict()["group_velocities"][0]
+                run.count("oracle-gv-multi-segment-band-path-q", section="oracle")
+                if np.abs(bgv[isg][iq] - g1).max() > 1e-9 * max(1.0, np.abs(g1).max()):
+                    run.violation("Phonopy.run_band_structure(with_group_velocities=True)", "multi-segment-path",
+                                  "group velocities at q=%s of segment %d differ from the single-q result by %.3g" % (sg[iq].tolist(), isg, np.abs(bgv[isg][iq] - g1).max()), info)
 
     # ---------------- compact force constants; q_direction argument (Wang NAC)
     from phonopy.harmonic.force_constants import full_fc_to_compact_fc
@@ -935,8 +1036,13 @@ def main(run):
         done += 1
 
     # ---------------- correspondence with the Lean model
-    all_lines = lines + gv_lines + gr_lines
-    all_meta = meta + gv_meta + gr_meta
+    all_lines, all_meta = [], []
+    for l_, m_ in zip(lines + gv_lines + gr_lines, meta + gv_meta + gr_meta):
+        if l_ is None:
+            run.broke("correspondence", "private attributes needed for the model inputs are not accessible (%s): model inputs unavailable" % m_[0], m_[1])
+        else:
+            all_lines.append(l_)
+            all_meta.append(m_)
     out = common.lean_run_driver("C12", all_lines)
     if len(out) != len(all_lines):
         run.broke("correspondence", "driver answered %d lines for %d requests" % (len(out), len(all_lines)))
@@ -978,7 +1084,6 @@ def main(run):
             run.count("little-group-certificates", section="correspondence")
             if line != "true":
                 run.broke("correspondence", "little group of q is not closed under multiplication (certificate groupTableOk = %s)" % line, info)
-                run.violation("GroupVelocity._symmetrize_group_velocity", "little-group-not-a-group", "selected operations do not form a group", info)
         elif kind == "fdd":
             ref = m_[2]
             if line == "bad-op":
